@@ -730,3 +730,67 @@ Definition model_dispatch : list ctype :=
 
 Definition interp (r : pres) (s : sval) (pattern : list sval) : list sval :=
   match r with RDrop => [] | RValue => [s] | RPattern => pattern end.
+
+(* ------------------------------------------------------------------ *)
+(* construction sites: how source conditions become constraints.  Gen/NarrowSrc.v reads these
+   constants off the ast of name_check_visitor / implementation / signature / patma on every run;
+   Proofs/NarrowSrcTie.v proves cond_acon (and invert / apply_acon / pred_equals / pred_in) equal to
+   what the generated constants prescribe. *)
+Inductive cmpkind := KIs | KIsNot | KEq | KNotEq | KIn | KNotIn.
+Inductive pkind := PKEquals (use_is : bool) | PKIn.
+Inductive wrapkind := WTyped | WSub.
+Inductive ackind := IsAnd | IsOr.
+Inductive eres := EDrop | EValue | ELiteral | EBoolCompl | EEnumCompl.
+Inductive ires := IDrop | IValue | IAcceptable | IEnumCompl.
+
+(* the constraint a comparison `x <op> literal(s)` yields, from a (predicate kind, positive) row *)
+Definition compare_leaf (row : pkind * bool) (ls : list obj) : constr :=
+  match fst row with
+  | PKEquals use_is => KPred (PEquals (match ls with l :: _ => l | [] => ONone end) use_is) (snd row)
+  | PKIn => KPred (PIn ls) (snd row)
+  end.
+(* the condition a comparison operator stands for *)
+Definition compare_cond (k : cmpkind) (ls : list obj) : cond :=
+  let l := match ls with l :: _ => l | [] => ONone end in
+  match k with
+  | KIs => CIs l | KIsNot => CNot (CIs l)
+  | KEq => CEq l | KNotEq => CNot (CEq l)
+  | KIn => CIn ls | KNotIn => CNot (CIn ls)
+  end.
+
+Definition wrap (w : wrapkind) (c : cls) : bval := match w with WTyped => VTyped c | WSub => VSub c end.
+Definition isassign_leaf (site : wrapkind * ctype * bool * bool) (cs : list cls) : option constr :=
+  match site with
+  | (w, T_predicate, positive, po) => Some (KPred (PIsAssignable (map (wrap w) cs) po) positive)
+  | _ => None
+  end.
+
+Definition equals_skel (is_known opres positive asg pat_bool is_typed typ_bool pat_enum typ_same : bool) : eres :=
+  if is_known then (if opres then EValue else EDrop)
+  else if positive then (if asg then ELiteral else EDrop)
+  else if pat_bool then (if is_typed && typ_bool then EBoolCompl else EValue)
+  else if pat_enum then (if is_typed && typ_same then EEnumCompl else EValue)
+  else EValue.
+
+Definition in_skel (is_known inres positive acc_nonempty pat_enum is_typed typ_same : bool) : ires :=
+  if is_known then (if Bool.eqb inres positive then IValue else IDrop)
+  else if positive then (if acc_nonempty then IAcceptable else IDrop)
+  else if pat_enum then (if is_typed && typ_same then IEnumCompl else IValue)
+  else IValue.
+
+Definition is_known_b (b : bval) : bool := match b with VKnown _ => true | _ => false end.
+Definition is_typed_b (b : bval) : bool :=
+  match b with VTyped _ | VTuple _ | VGen _ => true | _ => false end.
+Definition known_obj (b : bval) : obj := match b with VKnown o => o | _ => ONone end.
+Definition is_bool_lit (l : obj) : bool := match l with OBool _ => true | _ => false end.
+Definition is_enum_lit (l : obj) : bool := match l with OEnum _ _ => true | _ => false end.
+Definition bool_compl (l : obj) : obj := match l with OBool p => OBool (negb p) | _ => l end.
+
+Definition einterp (r : eres) (s : sval) (l : obj) : list sval :=
+  match r with
+  | EDrop => []
+  | EValue => [s]
+  | ELiteral => [plain (VKnown l)]
+  | EBoolCompl => [plain (VKnown (bool_compl l))]
+  | EEnumCompl => other_members (class_of l) (enum_size (class_of l)) (fun m => obj_eqb m l)
+  end.
